@@ -256,6 +256,15 @@ def rule_scalar(idx: ProgramIndex, rep: Report):
                     node = cfg.node_of(d)
                     ok = None
                     if node is not None:
+                        # conditional expression: (a if isinstance(p, Number) else p.attr): the branch taken is decided by the test
+                        for x in ast.walk(node.ast if node.kind != "iter" else node.ast.iter):
+                            if isinstance(x, ast.IfExp):
+                                kind = type_test_kind(x.test, p)
+                                if kind is not None:
+                                    in_body = any(y is d for y in ast.walk(x.body))
+                                    in_else = any(y is d for y in ast.walk(x.orelse))
+                                    if (in_body and kind is True) or (in_else and kind is False):
+                                        ok = f"conditional expression on `{norm(x.test)[:50]}`"
                         # same-expression short circuit: isinstance(p, X) and p.attr
                         for x in ast.walk(node.ast if node.kind != "iter" else node.ast.iter):
                             if isinstance(x, ast.BoolOp) and any(y is d for v in x.values[1:] for y in ast.walk(v)):
